@@ -46,14 +46,14 @@ ASSUMPTIONS = ['bit flips inside complete JSON files are not injected (nothing i
 PROBES = ['restart_with_groups', 'restart_with_links', 'restart_with_joins', 'restart_by_reference', 'restart_relative_paths',
           'double_round_trip', 'second_generation_restart', 'fault_torn_write', 'fault_enospc', 'fault_open', 'fault_close',
           'fault_truncated_read', 'fault_missing_read', 'fault_empty_read', 'save_failed_loudly', 'metadata_unserialisable_filtered',
-          'datetime_component', 'categorical_component', 'multi_key_join', 'session_saved_in_another_directory', 'categorical_jitter', 'two_input_link_with_own_input']
+          'datetime_component', 'categorical_component', 'multi_key_join', 'session_saved_in_another_directory', 'categorical_jitter', 'two_input_link_with_own_input', 'coordinates_set_later', 'coordinates_set_on_file_dataset']
 
 LEAFKINDS = ['ineq', 'range', 'mrange', 'roi', 'roix', 'mask', 'slice', 'elem', 'catroi', 'cat', 'cat2d', 'catmr', 'flood', 'roi3d',
              'roind', 'empty']
 LINKKINDS = [('oneway', 2), ('oneway_inv', 2), ('identity', 1), ('same', 2), ('twoway', 2), ('multi', 1), ('aligned', 1), ('join', 2)]
 WEIGHTS = {'new': 3, 'new_file': 2.5, 'append': 3, 'remove': 0.7, 'add_derived': 1.5, 'add_link': 4, 'join': 1.5, 'new_group': 6,
            'set_state': 2, 'set_label': 1, 'set_style': 1, 'set_dstyle': 1, 'set_meta': 1.5, 'remove_group': 0.5, 'restart': 4,
-           'remove_link': 0.5, 'reorder': 0.7, 'jitter': 0.7}
+           'remove_link': 0.5, 'reorder': 0.7, 'jitter': 0.7, 'set_coords': 0.8}
 FAULTS = [None, None, None, None, 'torn', 'enospc', 'open_enoent', 'open_enospc', 'closefail', 'read_truncated', 'read_missing',
           'read_empty', 'read_dir']
 
@@ -114,6 +114,8 @@ def generate(rng, cfg, guards):
             ops.append([k, r8(), rng.randrange(1000)])
         elif k == 'jitter':
             ops.append([k, r8(), rng.chance(0.8)])
+        elif k == 'set_coords':
+            ops.append([k, r8(), rng.pick([1, 2, 2, 0])])
         else:
             fault = rng.pick(FAULTS) if with_faults else None
             ops.append(['restart', rng.chance(0.7), rng.chance(0.6), fault, rng.randrange(1, 4000), rng.chance(0.3), rng.pick([0, 0, 0, 1, 2, 3])])
@@ -455,6 +457,14 @@ def _execute(case, res, tmp, fs):
                         if d.get_kind(c) == 'categorical':
                             d.get_component(c).jitter('uniform' if op[2] else None)
                             res.probe('categorical_jitter')
+            elif k == 'set_coords':
+                # coordinates attached (calibrated) or taken away after the dataset was made or read from its file
+                d = w.pick_data(op[1])
+                if d is not None:
+                    d.coords = W.make_coords(op[2], d.ndim) if op[2] else None
+                    res.probe('coordinates_set_later')
+                    if hasattr(d, '_load_log'):
+                        res.probe('coordinates_set_on_file_dataset')
             elif k == 'set_dstyle':
                 d = w.pick_data(op[1])
                 if d is not None:
